@@ -58,4 +58,5 @@ package mvs
 //@   ensures below: (p.Path != "" && result.1 == nil && result.0.Version != "none") ==> semcmp(result.0.Version, p.Version) < 0
 //@   modifies heap, smap
 //@   loop 0: invariant selected == "none" || semcmp(selected, p.Version) < 0
+//@   loop 0: invariant rangeindex < len(versions)
 //@   loop 0: invariant (forall j: int :: 0 <= j && j <= rangeindex ==> !(semmajor(versions[j].Version) == semmajor(p.Version) && semcmp(versions[j].Version, p.Version) < 0 && semvalid(versions[j].Version))) ==> selected == "none"
